@@ -1,8 +1,8 @@
 (* C10 — Marshal and Unmarshal are inverse on every supported struct shape.
-   Statements only.  [C10_full_statement] is the property at full strength; what is proved so far is listed
-   below it (the class theorem is added by Codec/ClassProofs.v when it lands). *)
+   Statements only.  [C10_full_statement] is the property for the class of unambiguous layouts and
+   presentable values; it is proved (C10_class). *)
 Require Import GC.Base.Bytes GC.Codec.Types GC.Codec.Strconv GC.Codec.StrconvProofs GC.Codec.TypeInfo
-               GC.Codec.Marshal GC.Codec.Unmarshal GC.Codec.Codec GC.Codec.Class
+               GC.Codec.Marshal GC.Codec.Unmarshal GC.Codec.Codec GC.Codec.Class GC.Codec.ClassProofs
                GC.Schemes.Layouts GC.Generated.Gen_layouts GC.Tie.Tie_layouts.
 
 (* the property, for the class of unambiguous layouts and presentable values (DESIGN.md §6 C10) *)
@@ -11,6 +11,21 @@ Definition C10_full_statement : Prop :=
     unambiguous ti = true -> paths_ok ti = true -> numreq_ok ti = true -> presentable cb ti sv = true ->
     marshal cb ti sv = Ok s ->
     exists m, unmarshal cb ti s = Ok m /\ agree m (expected ti sv).
+
+(* PROVED: for every layout in the class (any number of fields, groups, inline chains, optional fields,
+   prefix) and every presentable value, for arbitrary text-(un)marshaler behaviours [cb]: the string Marshal
+   produces unmarshals into a fresh value that agrees field by field with the one marshalled *)
+Theorem C10_class : C10_full_statement.
+Proof. exact class_roundtrip. Qed.
+
+(* every layout built by getTypeInfo (type_info) satisfies the NumReqValues hypothesis of the class theorem *)
+Theorem C10_numreq : forall st ti, type_info st = Ok ti -> numreq_ok ti = true.
+Proof. exact type_info_numreq. Qed.
+
+(* presentable values are accepted by Marshal, so C10_class is not vacuous on them *)
+Theorem C10_presentable_marshals : forall cb ti sv,
+  unambiguous ti = true -> presentable cb ti sv = true -> exists s, marshal cb ti sv = Ok s.
+Proof. exact presentable_marshals. Qed.
 
 (* integers: Parse inverts Format for every base 2..36 and every bit size, signed and unsigned; the emitted
    digits never contain a delimiter *)
